@@ -268,7 +268,7 @@ def conditions(tier):
         if quick:
             plan = [(vi, l1, l2, None) for vi in (0, 1, 2, 3) for (l1, l2) in [(0, 0), (1, 0), (0, 1), (1, 1)]]
         else:
-            plan = [(vi, l1, l2, None) for vi in (0, 1, 2, 3) for (l1, l2) in [(0, 0), (1, 0), (0, 1), (1, 1), (2, 0), (2, 1), (1, 2)]]
+            plan = [(vi, l1, l2, None) for vi in (0, 1, 2, 3) for (l1, l2) in [(0, 0), (1, 0), (0, 1), (1, 1), (2, 0)]] + [(vi, l1, l2, None) for vi in (0, 3) for (l1, l2) in [(2, 1), (1, 2)]]
         for vi, l1, l2, f in plan:
             conds.append({"name": "run_exception[%s,v%d,len%d+%d%s]" % (EXC_KINDS[kind], vi, l1, l2, "" if f is None else ",frag%d" % f), "fn": run_exception, "timeout": t,
                           "part": {"kind": kind, "vi": vi, "listener": 0, "l1": l1, "l2": l2, "frag": f},
